@@ -1817,6 +1817,46 @@ func Harness_C06_contended() {
 	VerifCover("done")
 }
 
+// Harness_C06_acked: once Add has returned success its transaction is part of every later state, also when it committed while another process was merging tables and that process is then killed anywhere (or runs to its end).
+// bounds: stack of 2 tables; process 1 runs CompactAll and may be abandoned before any of its filesystem steps; process 2 runs Add; every schedule with <= 2 preemptions at visible steps; a fresh handle reads afterwards
+// covers: done
+func Harness_C06_acked() {
+	cfg := stackCfg(0)
+	dir := VerifTempDir()
+	const n = 2
+	seedStack(dir, cfg, n)
+	VerifAs(1)
+	a := mustOpen(dir, cfg, "open-a")
+	VerifAs(2)
+	b := mustOpen(dir, cfg, "open-b")
+	VerifAs(0)
+	if a == nil || b == nil {
+		return
+	}
+	var addErr error = ErrLockFailure
+	VerifSpawnCrashable(func() { a.CompactAll(nil) })
+	VerifSpawn(func() { addErr = addTxn(b, 7, true) })
+	VerifRun(2)
+	VerifAs(0)
+	fin, ferr := NewStack(dir, cfg)
+	VerifAssert(ferr == nil, "reopen-after-crash")
+	if ferr != nil {
+		return
+	}
+	got := snapshot(fin, "after-crash")
+	for i := 0; i < n; i++ {
+		v, ok := got.refs["p"+string([]byte{'0' + byte(i)})]
+		VerifAssert(ok && v == byte(i), "committed-ref-lost")
+	}
+	if addErr == nil {
+		VerifAssert(got.refs["p7"] == 7 && got.refs["s"] == 7, "acknowledged-transaction-lost")
+	} else {
+		_, has := got.refs["p7"]
+		VerifAssert(!has, "refused-transaction-left-an-effect")
+	}
+	VerifCover("done")
+}
+
 // stackUniverse builds a stack of k tables through the real API; table t holds ref "a" as {absent,value,deletion} and ref "b" as {absent,value}, a reflog entry for a@t+1 or a reflog deletion of a@t (choices), plus ref "z" in the last table.
 func stackUniverse(st *Stack, k int) {
 	hs := hsOf(st.cfg)
